@@ -122,6 +122,17 @@ def processIso (st : DState) (parts : List String) : Option String :=
         else Vbs.ipmReadAll plainSrc ml (isoDecoder env cfg) (f.length + 1) (Vbs.init f)
       some s!"ok {"|".intercalate (r.1.map renderDict)} {renderEnd r.2}"
     | _, _, _, _ => some "bad-op"
+  | ["ipm.cuts", cid, codec, blocked, maxLen, spec, step] =>
+    match lookupCfg st cid, mkEnv codec, maxLen.toNat?, parseSpec spec, step.toNat? with
+    | some cfg, some env, some ml, some f, some stp =>
+      let ns := (List.range (f.length / (max stp 1) + 1)).map (· * (max stp 1))
+      some ("ok " ++ ";".intercalate (ns.map (fun n =>
+        let g := f.take n
+        let r := if blocked == "1"
+          then Vbs.ipmReadAll (unblockSrc P1014) ml (isoDecoder env cfg) (g.length + 1) (Vbs.init ⟨g, []⟩)
+          else Vbs.ipmReadAll plainSrc ml (isoDecoder env cfg) (g.length + 1) (Vbs.init g)
+        s!"{r.1.length}:{renderEnd r.2}")))
+    | _, _, _, _, _ => some "bad-op"
   | ["ipm.write", cid, codec, blocked, dicts] =>
     match lookupCfg st cid, mkEnv codec,
         (if dicts.isEmpty then some [] else (dicts.splitOn "|").mapM parseDict) with
